@@ -31,7 +31,7 @@ def gen_case(rng, flavor=None, size=None):
                 if q < 0.7:
                     data = gen_data(rng)
                     stale = rng.random() < 0.06 and s in committed
-                    body.append(['blob', s, data.hex(), 1 if stale else 0])
+                    body.append(['blob', s, data, 1 if stale else 0])
                 elif q < 0.8:
                     body.append(['plain', 'p%d' % rng.randrange(2), rng.randrange(5)])
                 elif q < 0.88:
@@ -70,12 +70,21 @@ def gen_case(rng, flavor=None, size=None):
 
 
 def gen_data(rng):
+    """blob payload as a compact string: hex, or 'R<len>:<seed>' for a long pseudo-random one"""
     r = rng.random()
     if r < 0.08:
-        return b''
+        return ''
     if r < 0.9:
-        return bytes(rng.randrange(97, 123) for _ in range(rng.randrange(1, 9)))
-    return bytes(rng.randrange(256) for _ in range(rng.choice([25, 100, 9000])))
+        return bytes(rng.randrange(97, 123) for _ in range(rng.randrange(1, 9))).hex()
+    return 'R%d:%d' % (rng.choice([25, 100, 9000, 70000]), rng.randrange(1000))
+
+
+def decode_data(s):
+    if s.startswith('R'):
+        import random
+        n, seed = s[1:].split(':')
+        return random.Random(int(seed)).randbytes(int(n))
+    return bytes.fromhex(s)
 
 
 # ---------------------------------------------------------------- runner + oracle
@@ -106,7 +115,7 @@ def run_case(case, root, ck=None):
     from ZODB.blob import Blob
     from ZODB.tests.MinPO import MinPO
     from ZODB.tests.StorageTestBase import zodb_pickle
-    from ZODB.serialize import referencesf
+    from ZODB.serialize import referencesf, ObjectWriter
     from ZODB.TimeStamp import TimeStamp
     from base64 import encodebytes
     import clock
@@ -127,7 +136,7 @@ def run_case(case, root, ck=None):
         env = Env(os.path.join(root, 'db'), flavor, keep_old=case.get('keep_old', False), pack_gc=True)
         S = env.storage
         L = Ledger()
-        blob_pickle = zodb_pickle(Blob())
+        blob_pickle = ObjectWriter().serialize(Blob())   # what Connection stores (is_blob_record)
         oid_of = {}
         txn = None
         pending = None          # dict oid -> bytes|None|'plain'
@@ -230,14 +239,14 @@ def run_case(case, root, ck=None):
                     elif o in L.hist and L.hist[o][-1][1] is not None:
                         linked_p.add(o)
                 elif kind in ('blob', 'plain', 'missingblob', 'undo'):
-                    if txn is None or phase != 'begun':
-                        continue
+                    if txn is None or phase != 'begun' or failed:
+                        continue               # after a raising call the transaction is only aborted
                     try:
                         if kind == 'blob':
                             o = oid(op[1])
                             if u64(o) in pending:
                                 continue
-                            data = bytes.fromhex(op[2])
+                            data = decode_data(op[2])
                             tmp = os.path.join(S.temporaryDirectory(), 'w%d.tmp' % len(env.lines))
                             with open(tmp, 'wb') as f:
                                 f.write(data)
